@@ -560,13 +560,25 @@ VH_CMD(prune)
             af >> meta;
             auto res = cm.ActivateSnapshot(af, meta, /*in_memory=*/false);
             if (!res) throw std::runtime_error("genuine snapshot refused: " + util::ErrorString(res).original);
-            LOCK(::cs_main);
-            h.snap_cs = &cm.CurrentChainstate();
-            h.bg_cs = cm.HistoricalChainstate();
+            {
+                LOCK(::cs_main);
+                h.snap_cs = &cm.CurrentChainstate();
+                h.bg_cs = cm.HistoricalChainstate();
+            }
             if (!h.bg_cs) throw std::runtime_error("no background chainstate after snapshot activation");
             h.base_height = 110;
             bg_next = H + 1;
             vh::log().obs("snapshot_histories");
+            if (rng.chance(2, 3) && H + 2 <= 110) {
+                // some background blocks arrive out of order straight away: stored next to the validated ones, not yet validated
+                const int to = std::min(110, H + 2 + int(rng.below(15)));
+                for (int i = H + 2; i <= to; ++i) {
+                    bool nb;
+                    if (!cm.ProcessNewBlock(ch.blocks[i], true, true, &nb)) throw std::runtime_error("out-of-order base block rejected");
+                    bg_pending.push_back(i);
+                }
+                vh::log().obs("bg_out_of_order");
+            }
         }
 
         // ---- grow -----------------------------------------------------------------------------------------------
